@@ -5,8 +5,10 @@ Conversions between NFSv4 (offset, length) pairs and the half-open
 Mirrors `pkg/filesystem/virtual/nfsv4/opened_files_pool.go`:
 
 * `offsetLengthToStartEnd` – `func offsetLengthToStartEnd(offset, length uint64) (uint64, uint64, nfsv4.Nfsstat4)` (l. 246)
-  (`none` = `NFS4ERR_INVAL`)
-* `toDenied`               – the offset/length computation of `byteRangeLockToLock4Denied` (l. 280)
+  (`.error st` = the `nfsstat4` value `st`: `stInval` = `NFS4ERR_INVAL`, `stBadRange` = `NFS4ERR_BAD_RANGE`)
+* `legacyOffsetLengthToStartEnd` – the same function before the fix 3d4b513 (`none` = `NFS4ERR_INVAL`); kept for
+  the counterexample theorems `legacy…` only, nothing else refers to it
+* `toDenied`               – the offset/length computation of `byteRangeLockToLock4Denied` (l. 295)
 * `unlockAllRange`         – the range `[0, math.MaxUint64)` used by `OpenedFile.UnlockAll` (l. 215)
 
 Arguments are `Nat`s that the callers bound by `2^64`; `maxU64 = math.MaxUint64`.
@@ -20,8 +22,30 @@ namespace BbRe.LockRange
 /-- `math.MaxUint64`. -/
 def maxU64 : Nat := 2 ^ 64 - 1
 
-/-- `offsetLengthToStartEnd`; `none` is `NFS4ERR_INVAL`. -/
-def offsetLengthToStartEnd (offset length : Nat) : Option (Nat × Nat) :=
+/-- `NFS4ERR_INVAL`. -/
+def stInval : Nat := 22
+
+/-- `NFS4ERR_BAD_RANGE`. -/
+def stBadRange : Nat := 10042
+
+/-- Result of `offsetLengthToStartEnd`: an `nfsstat4` other than `NFS4_OK`, or the range `(start, end)`. -/
+inductive Conv where
+  | error (st : Nat)
+  | ok (r : Nat × Nat)
+  deriving DecidableEq, Repr
+
+/-- `offsetLengthToStartEnd`; `.error st` is the returned `nfsstat4`.  Length 0 and a range whose
+end overflows are `NFS4ERR_INVAL`; the single byte at offset `2^64-1` ("to end of file" from the last
+offset), which a half-open pair of `uint64`s cannot hold, is `NFS4ERR_BAD_RANGE`. -/
+def offsetLengthToStartEnd (offset length : Nat) : Conv :=
+  if length = 0 then .error stInval
+  else if length = maxU64 then
+    if offset = maxU64 then .error stBadRange else .ok (offset, maxU64)
+  else if length > maxU64 - offset then .error stInval
+  else .ok (offset, offset + length)
+
+/-- The conversion as it was before 3d4b513: no special case for offset `2^64-1`. -/
+def legacyOffsetLengthToStartEnd (offset length : Nat) : Option (Nat × Nat) :=
   if length = 0 then none
   else if length = maxU64 then some (offset, maxU64)
   else if length > maxU64 - offset then none
